@@ -204,11 +204,15 @@ def witness_search(tier, seed):
     versions = [None, "", "0.69", "0.7", "0.70", "0.83", "1.0"]
     for skind, ver, ckind in itertools.product(("SM", "SSC"), versions, ("none", "SM", "SSC")):
         for which in [None] + list(props):
-            for state in ("empty", "value"):
+            for state, off in (("empty", "0.5"), ("value", "0.5"), ("value", ""), ("empty", None)):
                 sf = (SMSimfile if skind == "SM" else SSCSimfile).blank()
                 sf["BPMS"] = "0.000=120.000"
                 sf["STOPS"] = "4.000=1.000"
                 sf["OFFSET"] = "0.5"
+                if off is None:
+                    sf.pop("OFFSET", None)      # "the offset defaults to zero when its source has none" - absent
+                else:
+                    sf["OFFSET"] = off          # - or present and empty
                 sf["DELAYS"] = "2.000=0.250"
                 sf["WARPS"] = "16.000=4.000"
                 if ver is None:
@@ -220,7 +224,7 @@ def witness_search(tier, seed):
                     ch = SMChart.blank()
                 elif ckind == "SSC":
                     ch = SSCChart.blank()
-                    ch["OFFSET"] = "-1"
+                    ch["OFFSET"] = "-1" if off else ""
                     if which:
                         ch[which] = "" if state == "empty" else "0.000=200.000"
                 expect_chart = (skind == "SSC" and ckind == "SSC" and float(ver or "0") >= 0.7 and which is not None and state == "value")
